@@ -101,11 +101,11 @@ func (g *blockGen) setup() bool {
 		g.emit("A 0 0 %s", you(1000000))
 		g.funded = append(g.funded, 0)
 	}
-	nv := r.Intn(3)
+	nv := r.Range(1, 3)
 	for i := 0; i < nv; i++ {
 		op := g.funded[r.Intn(len(g.funded))]
 		role := r.Range(1, 3)
-		g.emit("VAL %d %d %d %d %d %d", op, i, role, r.Range(600, 5000), r.Intn(2), r.Intn(2))
+		g.emit("VAL %d %d %d %d %d %d", op, i, role, r.Range(600, 5000), []int{1, 1, 1, 0}[r.Intn(4)], r.Intn(2))
 		g.vals = append(g.vals, i)
 		g.valOp[i] = op
 	}
@@ -268,7 +268,14 @@ func (g *blockGen) nextTx() bool {
 			value = new(big.Int).Div(bal, big.NewInt(int64(r.Range(2, 50))))
 		}
 	}
-	switch r.Weighted([]int{25, 22, 12, 18, 9}) {
+	txKind := r.Weighted([]int{25, 22, 12, 18, 9})
+	if txKind == 3 && len(g.vals) > 0 && r.Chance(60) {
+		key = g.valOp[g.vals[r.Intn(len(g.vals))]]
+		from = addrs[key]
+		nonce = b.st.GetNonce(from)
+		bal = b.st.GetBalance(from)
+	}
+	switch txKind {
 	case 0:
 		kind = "transfer"
 		var a common.Address
